@@ -1,3 +1,7 @@
+-- Root of the `Bisquitt` library: the model, the specifications and the property theorems.
 import Bisquitt.Model.Bytes
 import Bisquitt.Model.Wire
 import Bisquitt.Spec.Codec
+import Bisquitt.Props.C20
+import Bisquitt.Props.C21
+import Bisquitt.Props.C22
